@@ -595,6 +595,15 @@ func (c *c12) add() {
 			class = "id-short"
 			f.id = [][]byte{{1, 2, 3}, {}, keyID[:31]}[r.Intn(3)]
 		case 16:
+			if r.Bool() {
+				class = "id-absent" // what the repository's own tests serve: the SCT must still carry the key's hash
+				if r.Bool() {
+					f.id = nil
+				} else {
+					body = []byte(fmt.Sprintf(`{"sct_version":0,"timestamp":%d,"extensions":%q,"signature":%q}`, f.ts, f.ext, b64(f.sig)))
+				}
+				break
+			}
 			class = "id-long"
 			f.id = append(append([]byte(nil), keyID[:]...), r.Bytes(1+r.Intn(32))...)
 		case 17:
